@@ -135,6 +135,14 @@ def run_contract_case(I, contract, case, timeout_ms=None, registry=None):
         res["lineno"] = f.node.lineno
         I.under_test = contract.name
         contract.current_case = case          # loop specifications / local contracts may depend on the case
+        why_not = contract.applicable(I, case, f) if hasattr(contract, "applicable") else None
+        if why_not:
+            # a case written for one shape of the code (e.g. "the frames are selected by a comprehension") does not apply to another
+            # shape: nothing is claimed for it (listed in the evidence); the contract's other cases still run
+            res["skipped"] = why_not
+            res["cover"] = "sat"
+            res["wall"] = round(time.time() - t0, 3)
+            return res
         I.inline = set(contract.inline)
         if hasattr(contract, "local_contracts"):
             I.contracts = dict(I.contracts)
